@@ -132,7 +132,7 @@ fn handle(w: &str, c: char) -> Option<usize> {
 pub fn handle_positions(verb: &str) -> &'static [usize] {
     match verb {
         "remove" | "setref" | "move" | "copy" | "#twin" => &[1, 2],
-        "reset" | "newmodel" | "mkfile" | "sortm" | "lookup" | "refs" | "checkrefs" | "dump" | "rmfile" | "#dup" => &[],
+        "reset" | "newmodel" | "mkfile" | "sortm" | "lookup" | "refs" | "checkrefs" | "dump" | "rmfile" | "#dup" | "compat" | "setver" => &[],
         _ => &[1],
     }
 }
@@ -141,7 +141,7 @@ pub fn is_mutating(verb: &str) -> bool {
     matches!(
         verb,
         "reset" | "newmodel" | "mkfile" | "create" | "named" | "remove" | "rename" | "cdata" | "rmcdata" | "instext" | "rmtext" | "setref" | "attr"
-            | "attrs" | "rmattr" | "move" | "copy" | "sort" | "sortm" | "comment" | "addfile" | "rmfromfile" | "rmfile"
+            | "attrs" | "rmattr" | "move" | "copy" | "sort" | "sortm" | "comment" | "addfile" | "rmfromfile" | "rmfile" | "setver"
     )
 }
 
@@ -368,7 +368,26 @@ impl World {
                 m.remove_file(&f);
                 "ok".to_string()
             }
+            "setver" if n == 3 => {
+                let f = self.h_file(w[1])?;
+                let ver = AutosarVersion::from_val(w[2].parse::<u32>().ok()?)?;
+                unit(f.set_version(ver))
+            }
             // ---- queries ----
+            "compat" if n == 3 => {
+                let f = self.h_file(w[1])?;
+                let ver = AutosarVersion::from_val(w[2].parse::<u32>().ok()?)?;
+                let (errors, mask) = f.check_version_compatibility(ver);
+                let items: Vec<String> = errors
+                    .iter()
+                    .map(|e| match e {
+                        CompatibilityError::IncompatibleAttribute { element, attribute, version_mask } => format!("A:{}:{}:{}", self.eid(element), id16(*attribute), version_mask),
+                        CompatibilityError::IncompatibleAttributeValue { element, attribute, version_mask, .. } => format!("V:{}:{}:{}", self.eid(element), id16(*attribute), version_mask),
+                        CompatibilityError::IncompatibleElement { element, version_mask } => format!("E:{}:{}", self.eid(element), version_mask),
+                    })
+                    .collect();
+                format!("ok {mask} {}", if items.is_empty() { "-".to_string() } else { items.join(",") })
+            }
             "path" if n == 2 => match self.h_elem(w[1])?.path() {
                 Ok(p) => format!("ok {}", hx(&p)),
                 Err(e) => errs(&e),
@@ -2870,6 +2889,18 @@ impl Gen {
                 let n = if !valid.is_empty() && self.rng.chance(4, 5) { valid[self.rng.below(valid.len())] } else { [ElementName::ArPackage, ElementName::Elements, ElementName::Category, ElementName::ShortName][self.rng.below(4)] };
                 self.req(format!("range e{p} {}", id16(n)));
                 self.req(format!("valid e{p}"));
+            }
+        }
+        // version compatibility (C17): every file against a few target versions; sometimes the version is changed
+        for k in 0..self.ck.w.models.len() {
+            for f in self.model_files(k) {
+                for _ in 0..3 {
+                    let bit = if self.rng.chance(1, 3) { [0usize, 1, 2, 5, 9][self.rng.below(5)] } else { self.rng.below(21) };
+                    self.req(format!("compat f{f} {}", 1u32 << bit));
+                    if self.rng.chance(1, 6) {
+                        self.m(format!("setver f{f} {}", 1u32 << bit));
+                    }
+                }
             }
         }
         self.req("dump".to_string());
